@@ -221,7 +221,7 @@ SPEC = {
         "vh::mocknode (scripted CQL mock cluster): per connection the keyspace of the last SetKeyspace answer completely written (ReqCtx.keyspace); the runner's handler records request-frame arrivals and client-side call/return/start events in one mutex-ordered sequence and keeps its own acknowledgement record as a cross-check",
         "census (checks/c20.py): select! arms of PoolRefiller::run and the counts of the sites where connections are opened / set up / pushed / published in connection_pool.rs, and counts + token order in worker.rs, node.rs, state.rs, session.rs (CENSUS_MORE), compared with the values the model was written from",
         "hook scylla::client::verif_keyspace (pass-through to VerifiedKeyspaceName::new, Connection::verify_use_keyspace_result, cluster::use_keyspace_result)",
-        "valid_name / parse_use are the name grammar and statement shape transcribed from the property text",
+        "valid_name / parse_use are the name grammar and statement shape transcribed from the property text; the verdict on the USE texts seen by the mock is the extracted texts_verdict (Model/Keyspace.v section 8: benign characters, identifiers = maximal alphabet runs), characterised by C20_text_viol_iff / C20_statement_never_viol",
     ],
     "assumptions": [
         "use_keyspace calls that overlap with a different name are outside the guarantee (documented API contract). Acceptor: after an undisturbed successful call the allowed set is that keyspace alone; after a group of overlapping calls that ALL returned Ok it is the set of the group's keyspaces; after a group with a failed call it is everything allowed before the group plus every keyspace named since, until the next call or group that succeeds",
